@@ -453,6 +453,7 @@ Lemma add_vcd_change_entry parse_f64 se t value len se' : se_tpe se = EncBits le
   exists st chars nums,
     normalize len value = Ok chars /\ length chars = len /\ chars_to_nums chars = Some nums /\
     small_syms st nums /\ Forall (fun v => v <= 8) nums /\
+    (forall st', small_syms st' nums -> states_num st <= states_num st') /\
     se_prev se <= t /\
     se_data se' = se_data se ++ enc_entry (t - se_prev se, st, write_n_state_loop st nums 0 None) /\
     se_tpe se' = se_tpe se /\ se_prev se' = t /\ se_max se' = join (se_max se) st.
@@ -463,7 +464,7 @@ Proof.
   destruct (strip_prefix value) as [vb| |]; try discriminate. cbn [bind] in *.
   destruct (Nat.eqb_spec len 1) as [|_]; [congruence|].
   destruct (check_states vb) as [st|] eqn:Ecs; [|discriminate].
-  destruct (check_states_min vb st Ecs) as (nums & Hn & Hs & H8 & _).
+  destruct (check_states_min vb st Ecs) as (nums & Hn & Hs & H8 & Hmin).
   destruct (chars_to_nums_lookup vb nums Hn) as [Hlen _].
   destruct (Nat.eqb_spec (length vb) len) as [Hlv|Hlv].
   - cbn [bind] in H. unfold write_n_state in H. rewrite Hn in H. cbn [bind] in H. inversion H; subst se'; clear H.
@@ -472,6 +473,7 @@ Proof.
     destruct (expand_keeps_kind vb len st x nums Hn Hs H8 Ee) as (pad & Hx & Hsx & H8x & Hlx).
     unfold write_n_state in H. rewrite Hx in H. cbn [bind] in H. inversion H; subst se'; clear H.
     exists st, x, (pad ++ nums). cbn [se_data se_prev se_max se_tpe enc_entry]. repeat split; auto.
+    intros st' Hs'. apply Hmin. now apply Forall_app in Hs' as [_ ?].
 Qed.
 
 (* ------------------------------------------------------------------ block layout *)
